@@ -819,7 +819,9 @@ func TestVerifC28(t *testing.T) {
 		"every non-empty subset of {node, signer, signature, signed_at} copied from sign i to sign j for all ordered pairs, every field of every sign edited alone, " +
 		"a sign derived from sign i (exact duplicate / garbage signature / node that never signed / later time) inserted at the front or the end, " +
 		"each followed by the recomputation of the operation's unkeyed hash from the public data; " +
-		"plus validation under another network id; plus all pairs of fact kinds on identical field values. " +
+		"plus validation under another network id; plus all pairs of fact kinds on identical field values; " +
+		"plus the cross-kind replay: for every ordered pair (K1, K2) of the signed fact kinds of the corpus and every type-respecting injective assignment of K1's field values " +
+		"to K2's field names, the K1 document re-labelled as K2 (hints of envelope and fact, field names, stage of the point) with hash, token and sign(s) kept. " +
 		"non-trivial = the mutated document decodes (validation, not the decoder, has to reject it)")
 	r.Assume("validation is IsValid(networkID) of the decoded top-level object (the property's observation point); suffrage-dependent checks (IsValidVoteproofWithSuffrage) are outside it")
 	r.Assume("signing times, voteproof ids and uuid fields come from the real constructors (wall clock); they are data, not control flow")
@@ -912,6 +914,9 @@ func TestVerifC28(t *testing.T) {
 	r.Set("sign_lists_in_corpus", signgroups)
 
 	c28FactPairs(r)
+
+	// cross-kind replay of signed facts (c28_replay_test.go)
+	c28Replay(r, t, enc, docs)
 }
 
 func c28Eval(r *vlib.Run, enc *jsonenc.Encoder, p *c28Prepared, q c28Path, m c28Mut, id string) {
